@@ -102,6 +102,26 @@ def run(ctx):
         for g in fam:
             for (bi, si, rv, ln) in find_aggregates(g, "WalRecord"):
                 built.setdefault(rv[3], []).append((g, bi, rv, ln))
+        # the record is built in the same body (closure) as the store call it describes: a record built outside the
+        # per-element closure / loop is logged once per call of the method, not once per entity
+        for (g, bi, t, sc) in self_calls:
+            for v in sorted(STORE2REC.get(sc) or ()):
+                local = bool(find_aggregates(g, "WalRecord", v))
+                ctx.ob("R3", "GrafeoDB::%s#%s-built-with-store-call" % (name, v), local,
+                       what="GrafeoDB::%s calls LpgStore::%s in %s but builds the WalRecord::%s in another body: the record is not "
+                            "produced once per store call" % (name, sc, short_id(g.id), v), where=g.loc(t["line"]))
+        for (g, bi, t, sc) in self_calls:
+            if bi not in g.reachable_blocks(g.blocks[bi]["t"].get("t")) if g.blocks[bi]["t"].get("t") is not None else True:
+                continue
+            cyc = g.reachable_blocks(g.blocks[bi]["t"]["t"])
+            for v in sorted(STORE2REC.get(sc) or ()):
+                same_loop = False
+                for (bb, si, rv, ln) in find_aggregates(g, "WalRecord", v):
+                    if bb in cyc and bi in g.reachable_blocks(bb):
+                        same_loop = True
+                ctx.ob("R3", "GrafeoDB::%s#%s-per-iteration" % (name, v), same_loop,
+                       what="GrafeoDB::%s calls LpgStore::%s inside a loop but builds the WalRecord::%s outside that loop: only part "
+                            "of the entities it creates are logged" % (name, sc, v), where=g.loc(t["line"]))
         for v in sorted(required):
             ok = v in built
             ctx.ob("R3", "GrafeoDB::%s#%s" % (name, v), ok,
